@@ -471,7 +471,9 @@ def clearDefaultsAll (E : Env) (help : HelpFn) : List ORef → PS → PS
     literal; the built-in help groups are added when HelpFlag is set -/
 def prepare (E : Env) (P : Parser) : Parser :=
   let P := P.allORefs.foldl (fun P r => P.modOpt r fun o => updateDefaultLiteral E { o with clearRef := true }) P
-  if P.opts.helpFlag then P.addHelpGroups else P
+  let P := if P.opts.helpFlag then P.addHelpGroups else P
+  -- the active chain is decided by this argument vector alone (after the D26 fix)
+  { P with cmds := P.cmds.map fun c => { c with active := none } }
 
 /-- the argument loop followed — when it raised no error — by defaults and the required check -/
 def parsePhase (E : Env) (help : HelpFn) (P : Parser) (argv : List Bytes) : PS :=
